@@ -154,6 +154,8 @@ func TestSigterm(t *testing.T) {
 	cases = append(cases, SgCase{Phase: "body", HangHC: true, Timeout: 2, Signals: 3}, SgCase{Phase: "headers", Timeout: 2, Signals: 2, Interrupt: true})
 	// a request whose head is half received when the signal arrives, with and without a probe in flight: it is served
 	cases = append(cases, SgCase{Phase: "partial", HangHC: true, Timeout: 3, Signals: 1}, SgCase{Phase: "partial", Timeout: 3, Signals: 1})
+	// the shortest shutdown time-out there is: a request that needs a moment is still allowed to finish
+	cases = append(cases, SgCase{Phase: "headers", Timeout: 1, Signals: 1}, SgCase{Phase: "body", Timeout: 1, Signals: 1, HangHC: true})
 	// a request that cannot finish: the process still stops cleanly when the time-out is over
 	cases = append(cases, SgCase{Phase: "stuck", HangHC: true, Timeout: 1, Signals: 1}, SgCase{Phase: "stuck", Timeout: 1, Signals: 1})
 	if Tier() == "thorough" {
